@@ -38,6 +38,9 @@ type Node struct {
 	outputBuf    *bytes.Buffer
 	scriptFile   *os.File
 	done         bool
+	// executing is true while the command of the current attempt is running
+	// (between the start and the return of cmd.Run).
+	executing bool
 }
 
 type NodeData struct {
@@ -128,7 +131,10 @@ func (n *Node) Execute(ctx context.Context) error {
 	if err != nil {
 		return err
 	}
-	n.SetError(cmd.Run())
+	n.setExecuting(true)
+	runErr := cmd.Run()
+	n.setExecuting(false)
+	n.SetError(runErr)
 	if n.outputBuf != nil && n.data.Step.Output != "" {
 		// cmd.Run has waited for the copying goroutines: the buffer is complete
 		ret := strings.TrimSpace(n.outputBuf.String())
@@ -236,11 +242,27 @@ func (n *Node) setErr(err error) {
 	n.data.State.Status = NodeStatusError
 }
 
+func (n *Node) setExecuting(v bool) {
+	n.mu.Lock()
+	defer n.mu.Unlock()
+	n.executing = v
+}
+
+// isExecuting tells whether the node's command is still running.
+func (n *Node) isExecuting() bool {
+	n.mu.RLock()
+	defer n.mu.RUnlock()
+	return n.executing
+}
+
 func (n *Node) signal(sig os.Signal, allowOverride bool) {
 	n.mu.Lock()
 	defer n.mu.Unlock()
 	status := n.data.State.Status
-	if status == NodeStatusRunning && n.cmd != nil {
+	// The first stop request flips the node to canceled; later requests (re-sends,
+	// the SIGKILL escalation) must still reach a command that has not exited.
+	live := status == NodeStatusRunning || (status == NodeStatusCancel && n.executing)
+	if live && n.cmd != nil {
 		sigsig := sig
 		if allowOverride && n.data.Step.SignalOnStop != "" {
 			sigsig = unix.SignalNum(n.data.Step.SignalOnStop)
